@@ -851,6 +851,13 @@ class NF:
 
     def _libcall(self, op: str, args, kws, e) -> Poly:
         short = op.split(".")[-1]
+        if short == "arange" and not kws and len(args) in (2, 3):
+            # arange(s, e, k) == s + k * arange((e - s) / k): one normal form for shifted / reversed progressions
+            k_ = args[2] if len(args) == 3 else Poly.const(1)
+            if k_.is_const() and k_.const_value() != 0:
+                kv = k_.const_value()
+                count = (args[1] - args[0]).scale(1 / kv)
+                return args[0] + self._libcall(op, [count], {}, e).scale(kv)
         if short in self.strip and args:
             p = args[0]
             if short == "stop_gradient":
